@@ -1011,6 +1011,9 @@ Definition eps_appended (k : nat) (s s' : ep) : Prop :=
 Lemma eps_appended_refl : forall k s, eps_appended k s s.
 Proof. intros. exists []. rewrite app_nil_r. split; [reflexivity|]. split; [cbn; lia|constructor]. Qed.
 
+Lemma eps_appended_same : forall k s s', u_send_queue s' = u_send_queue s -> eps_appended k s s'.
+Proof. intros k s s' E. exists []. rewrite app_nil_r. split; [exact E|]. split; [cbn; lia|constructor]. Qed.
+
 Lemma eps_keep_alive_off : forall now, (now + KEEP_ALIVE_INTERVAL <? now) = false.
 Proof. intro. unfold KEEP_ALIVE_INTERVAL. lia. Qed.
 
@@ -1082,4 +1085,371 @@ Proof.
     fsimpl;
     destruct (negb (u_event_sent s3) && (u_last_recv_time s3 + u_timeout s3 <? now)); fsimpl;
     (split; [exact A1|]; split; [exact A2|]; split; [exact A4|]); intro X; try reflexivity; congruence.
+Qed.
+
+Lemma eps_poll_effect : forall now nonce cs s out s',
+  poll now nonce cs s = Ok (out, s') ->
+  eps_core s' = eps_core s /\ eps_appended 2 s s' /\
+  (u_event_sent s = true -> u_event_sent s' = true) /\
+  (u_state s' = u_state s \/ (u_state s = PDisconnected /\ u_state s' = PShutdown)) /\
+  u_event_queue s' = [].
+Proof.
+  intros now nonce cs s out s' H. unfold poll, poll_gen in H. cbv zeta in H.
+  change (poll_running_gen current_code) with poll_running in H.
+  destruct (u_state s) eqn:Es.
+  - inversion H; subst; fsimpl. split; [reflexivity|]. split; [apply eps_appended_same; reflexivity|]. auto.
+  - destruct (u_last_sync_request_time s + SYNC_RETRY_INTERVAL <? now); inversion H; subst; fsimpl.
+    + split; [reflexivity|]. split; [|auto]. unfold eps_appended. fsimpl. eexists [_].
+      split; [reflexivity|]. split; [cbn; lia|]. constructor; [reflexivity|constructor].
+    + split; [reflexivity|]. split; [apply eps_appended_same; reflexivity|]. auto.
+  - destruct (poll_running now cs s) as [t| |] eqn:Et; try discriminate.
+    apply eps_poll_running_effect in Et. destruct Et as (A & B & C & D).
+    inversion H; subst; fsimpl. split; [exact A|]. split; [exact C|]. split; [exact D|]. split; [left; congruence|reflexivity].
+  - destruct (u_shutdown_timeout s <? now); inversion H; subst; fsimpl;
+      (split; [reflexivity|]; split; [apply eps_appended_same; reflexivity|]; split; [auto|]); split; auto.
+  - inversion H; subst; fsimpl. split; [reflexivity|]. split; [apply eps_appended_same; reflexivity|]. auto.
+Qed.
+
+Lemma eps_synchronize_effect : forall now nonce s s',
+  synchronize now nonce s = Ok s' ->
+  eps_core s' = eps_core s /\ eps_appended 1 s s' /\ u_event_sent s' = u_event_sent s /\
+  u_state s = PInitializing /\ u_state s' = PSynchronizing /\ u_event_queue s' = u_event_queue s.
+Proof.
+  intros now nonce s s' H. unfold synchronize in H.
+  destruct (pstate_eqb (u_state s) PInitializing) eqn:E; [|discriminate]. apply pstate_eqb_eq in E.
+  inversion H; subst; fsimpl. split; [reflexivity|]. split; [|auto].
+  unfold eps_appended. fsimpl. eexists [_]. split; [reflexivity|]. split; [cbn; lia|].
+  constructor; [reflexivity|constructor].
+Qed.
+
+(* send_input at a Running endpoint: one input appended to pending_output, one Input packet queued that
+   carries all of pending_output, encoded against last_acked_input *)
+Lemma eps_send_input_effect : forall now inputs cs s s',
+  send_input now inputs cs s = Ok s' ->
+  (u_state s <> PRunning /\ s' = s) \/
+  (u_state s = PRunning /\ u_state s' = PRunning /\
+   exists data, from_inputs (u_num_players s) inputs = Ok data /\
+     eps_core s' = eps_core (set_pending_output (u_pending_output s ++ [data]) s) /\
+     u_event_sent s' = u_event_sent s || (PENDING_OUTPUT_SIZE <? N.of_nat (length (u_pending_output s ++ [data])))%N /\
+     u_remote_magic s' = u_remote_magic s /\
+     exists f, hd_error (u_pending_output s ++ [data]) = Some f /\
+       u_send_queue s' = u_send_queue s ++
+         [mkMsg (u_magic s) (Input cs false (fst f) (last_recv_frame s)
+                               (Codec.encode (snd (u_last_acked s)) (map snd (u_pending_output s ++ [data]))))]).
+Proof.
+  intros now inputs cs s s' H. unfold send_input, send_input_gen in H. cbn [fix_send_guard current_code] in H.
+  destruct (pstate_eqb (u_state s) PRunning) eqn:Er; cbn [negb] in H.
+  2:{ left. inversion H; subst. split; [|reflexivity]. intro X. rewrite X in Er. discriminate. }
+  apply pstate_eqb_eq in Er. right.
+  destruct (from_inputs _ _) as [data| |]; try discriminate.
+  destruct (ts_advance_frame _ _ _ _) as [ts| |]; try discriminate. cbv zeta in H.
+  set (s1 := set_pending_output (u_pending_output s ++ [data]) (set_time_sync ts s)) in *.
+  set (s2 := if (PENDING_OUTPUT_SIZE <? N.of_nat (length (u_pending_output s1)))%N
+             then (if u_event_sent s1 then s1 else set_event_sent true (push_event EvDisconnected s1)) else s1) in *.
+  assert (F : eps_core s2 = eps_core s1 /\ u_state s2 = PRunning /\ u_send_queue s2 = u_send_queue s /\
+              u_magic s2 = u_magic s /\ u_remote_magic s2 = u_remote_magic s /\
+              u_event_sent s2 = u_event_sent s || (PENDING_OUTPUT_SIZE <? N.of_nat (length (u_pending_output s ++ [data])))%N).
+  { subst s2 s1. fsimpl. destruct (PENDING_OUTPUT_SIZE <? _)%N; [destruct (u_event_sent s) eqn:Ee|]; fsimpl;
+      rewrite ?Ee, ?orb_false_r, ?orb_true_r; repeat split; assumption. }
+  destruct F as (F1 & F2 & F3 & F4 & F5 & F6). clearbody s2.
+  apply eps_send_pending_output_shape in H. eps_core_inj F1. fold ibytes in *.
+  assert (Hpo : u_pending_output s2 = u_pending_output s ++ [data]) by exact C6.
+  destruct H as [(Hnil & _)|(f & b & r & Hpo2 & ->)].
+  { rewrite Hpo in Hnil. destruct (u_pending_output s); discriminate. }
+  split; [exact Er|]. split; [exact F2|]. exists data. split; [reflexivity|].
+  split; [unfold eps_core; fsimpl; congruence|]. split; [exact F6|]. split; [exact F5|].
+  exists (f, b). split; [rewrite <- Hpo, Hpo2; reflexivity|]. fsimpl.
+  rewrite F3, F4, F2, Hpo. cbn [pstate_eqb fst].
+  assert (last_recv_frame s2 = last_recv_frame s) as -> by (apply eps_last_recv_frame_ext; exact C9).
+  change (u_last_acked s1) with (u_last_acked s) in C7. rewrite C7. reflexivity.
+Qed.
+
+Lemma eps_on_checksum_report_effect : forall dbg c f s s',
+  on_checksum_report dbg c f s = Ok s' ->
+  exists pcs, s' = set_pending_checksums pcs s /\
+    (Z.of_nat (length pcs) <= Z.of_nat (length (u_pending_checksums s)) + 1) /\
+    ((Z.of_nat (length (u_pending_checksums s)) < MAX_CHECKSUM_HISTORY_SIZE /\
+      pcs = ainsert f c (u_pending_checksums s)) \/
+     (MAX_CHECKSUM_HISTORY_SIZE <= Z.of_nat (length (u_pending_checksums s)) /\
+      exists interval span lo, (u_desync s = Some interval \/ (u_desync s = None /\ dbg = false /\ interval = 1)) /\
+        ts_i32_arith dbg ((MAX_CHECKSUM_HISTORY_SIZE - 1) * ts_wrap_i32 interval) = Ok span /\
+        ts_i32_arith dbg (f - span) = Ok lo /\
+        pcs = ainsert f c (aretain_ge lo (u_pending_checksums s)))).
+Proof.
+  intros dbg c f s s' H. unfold on_checksum_report in H. cbv zeta in H.
+  assert (Hlen : forall l : list (Z * Z), Z.of_nat (length (ainsert f c l)) <= Z.of_nat (length l) + 1).
+  { intro l. unfold ainsert. cbn [length]. pose proof (@eps_aremove_length Z f l). lia. }
+  destruct (u_desync s) as [iv|] eqn:Ed.
+  - destruct (MAX_CHECKSUM_HISTORY_SIZE <=? Z.of_nat (length (u_pending_checksums s))) eqn:El.
+    + destruct (ts_i32_arith dbg ((MAX_CHECKSUM_HISTORY_SIZE - 1) * ts_wrap_i32 iv)) as [span| |] eqn:E1; try discriminate.
+      destruct (ts_i32_arith dbg (f - span)) as [lo| |] eqn:E2; try discriminate.
+      inversion H; subst. eexists. split; [reflexivity|]. split.
+      * specialize (Hlen (aretain_ge lo (u_pending_checksums s))).
+        pose proof (eps_filter_length (fun kv : Z * Z => lo <=? fst kv) (u_pending_checksums s)) as FL.
+        unfold aretain_ge in *. lia.
+      * right. split; [lia|]. exists iv, span, lo. auto.
+    + inversion H; subst. eexists. split; [reflexivity|]. split; [apply Hlen|]. left. split; [lia|reflexivity].
+  - destruct dbg; [discriminate|].
+    destruct (MAX_CHECKSUM_HISTORY_SIZE <=? Z.of_nat (length (u_pending_checksums s))) eqn:El.
+    + destruct (ts_i32_arith false ((MAX_CHECKSUM_HISTORY_SIZE - 1) * ts_wrap_i32 1)) as [span| |] eqn:E1; try discriminate.
+      destruct (ts_i32_arith false (f - span)) as [lo| |] eqn:E2; try discriminate.
+      inversion H; subst. eexists. split; [reflexivity|]. split.
+      * specialize (Hlen (aretain_ge lo (u_pending_checksums s))).
+        pose proof (eps_filter_length (fun kv : Z * Z => lo <=? fst kv) (u_pending_checksums s)) as FL.
+        unfold aretain_ge in *. lia.
+      * right. split; [lia|]. exists 1, span, lo. auto 6.
+    + inversion H; subst. eexists. split; [reflexivity|]. split; [apply Hlen|]. left. split; [lia|reflexivity].
+Qed.
+
+(* every message but Input *)
+Lemma eps_handle_other_effect : forall dbg now nonce m s s',
+  (forall st dr sf af bytes, m_body m <> Input st dr sf af bytes) ->
+  handle_message dbg now nonce m s = Ok s' ->
+  eps_appended 1 s s' /\ u_event_sent s' = u_event_sent s /\
+  (u_state s' = u_state s \/ (u_state s = PSynchronizing /\ u_state s' = PRunning)) /\
+  match m_body m with
+  | InputAck f => eps_core s' = eps_core s \/ eps_core s' = eps_core (pop_pending_output f s)
+  | ChecksumReport c f =>
+    eps_core s' = eps_core s \/
+    exists t, on_checksum_report dbg c f t = Ok s' /\ eps_core t = eps_core s
+  | _ => eps_core s' = eps_core s
+  end.
+Proof.
+  intros dbg now nonce m s s' Hni H. rewrite eps_handle_unfold in H.
+  destruct (passes_filters s m); cbn [negb] in H.
+  2:{ inversion H; subst. split; [apply eps_appended_refl|]. split; [reflexivity|]. split; [auto|].
+      destruct (m_body m); auto. }
+  cbv zeta in H. pose proof (eps_touch_fields now s) as T. unfold eps_only_touched in T.
+  destruct T as (T1&T2&T3&T4&T5&T6&T7&T8&T9&T10&T11&T12&T13&T14&T15&T16&T17&T18&T19&T20&T21&T22&T23&T24&T25&T26&T27&T28&T29&T30&T31&T32).
+  set (t := eps_touch now s) in *.
+  assert (Tc : eps_core t = eps_core s) by (unfold eps_core; congruence).
+  assert (App1 : forall b, eps_appended 1 s (queue_message now b t)).
+  { intro b. unfold eps_appended. fsimpl. rewrite T3. eexists [_]. split; [reflexivity|]. split; [cbn; lia|].
+    constructor; [cbn; exact T14|constructor]. }
+  assert (App0 : forall t', u_send_queue t' = u_send_queue t -> eps_appended 1 s t').
+  { intros t' E. unfold eps_appended. rewrite E, T3. exists []. rewrite app_nil_r.
+    split; [reflexivity|]. split; [cbn; lia|constructor]. }
+  destruct (m_body m) as [n|n|st dr sf af bytes|f|adv ping|pong|c f|] eqn:Eb.
+  - inversion H; subst s'. split; [apply App1|]. fsimpl. split; [exact T9|]. split; [left; exact T4|exact Tc].
+  - unfold on_sync_reply in H.
+    destruct (negb (pstate_eqb (u_state t) PSynchronizing)) eqn:E1.
+    { inversion H; subst s'. split; [apply App0; reflexivity|]. split; [exact T9|]. split; [left; exact T4|exact Tc]. }
+    destruct (negb (zmem n (u_sync_requests t))) eqn:E2.
+    { inversion H; subst s'. split; [apply App0; reflexivity|]. split; [exact T9|]. split; [left; exact T4|exact Tc]. }
+    apply negb_false_iff, pstate_eqb_eq in E1. rewrite T4 in E1. fsimpl.
+    destruct ((u_sync_remaining t <=? 0) && dbg); [discriminate|].
+    destruct (0 <? (u_sync_remaining t - 1) mod 4294967296).
+    + destruct ((NUM_SYNC_PACKETS <? _) && dbg); [discriminate|]. inversion H; subst s'. fsimpl.
+      split. { unfold eps_appended. fsimpl. rewrite T3. eexists [_]. split; [reflexivity|]. split; [cbn; lia|].
+               constructor; [cbn; exact T14|constructor]. }
+      split; [exact T9|]. split; [left; exact T4|exact Tc].
+    + inversion H; subst s'. fsimpl. split; [apply App0; reflexivity|]. split; [exact T9|].
+      split; [right; auto|exact Tc].
+  - exfalso. eapply Hni. reflexivity.
+  - inversion H; subst s'.
+    assert (E : eps_core (pop_pending_output f t) = eps_core (pop_pending_output f s) /\
+                u_send_queue (pop_pending_output f t) = u_send_queue t /\
+                u_event_sent (pop_pending_output f t) = u_event_sent t /\
+                u_state (pop_pending_output f t) = u_state t).
+    { unfold pop_pending_output. rewrite T17, T18. destruct (pop_pending _ _ _). unfold eps_core. fsimpl.
+      repeat split; congruence. }
+    destruct E as (E1 & E2 & E3 & E4). split; [apply App0; exact E2|]. split; [congruence|].
+    split; [left; congruence|right; exact E1].
+  - inversion H; subst s'. split; [apply App1|]. fsimpl. split; [exact T9|]. split; [left; exact T4|exact Tc].
+  - inversion H; subst s'. fsimpl. split; [apply App0; reflexivity|]. split; [exact T9|]. split; [left; exact T4|exact Tc].
+  - destruct (eps_on_checksum_report_effect _ _ _ _ _ H) as (pcs & -> & _). fsimpl.
+    split; [apply App0; reflexivity|]. split; [exact T9|]. split; [left; exact T4|].
+    right. exists t. split; [exact H|exact Tc].
+  - inversion H; subst s'. split; [apply App0; reflexivity|]. split; [exact T9|]. split; [left; exact T4|exact Tc].
+Qed.
+
+(* the loop never removes or overwrites an entry: new frames lie above every stored key *)
+Lemma eps_accept_keeps : forall dbg start inputs i s b s',
+  accept_inputs dbg start i inputs s = Ok (b, s') ->
+  forall k v, In (k, v) (u_recv_inputs s) -> In (k, v) (u_recv_inputs s').
+Proof.
+  induction inputs as [|inp rest IH]; intros i s b s' H k v X; cbn [accept_inputs] in H.
+  - inversion H; subst. exact X.
+  - destruct (ts_i32_arith dbg (start + i)) as [fr| |] eqn:Ef; try discriminate.
+    destruct (fr <=? last_recv_frame s) eqn:Ele; [eapply IH; eauto|].
+    apply Z.leb_gt in Ele.
+    destruct (to_player_inputs (length (u_handles s)) inp) as [vals|] eqn:Et; [|inversion H; subst; exact X].
+    destruct (input_events fr vals (u_handles s)) as [evs0| |] eqn:Ee; try discriminate.
+    eapply IH; [exact H|]. fsimpl. right. apply eps_in_aremove. split; [exact X|].
+    assert (Hne : u_recv_inputs s <> []) by (intro N; rewrite N in X; destruct X).
+    destruct (eps_lrf_is_max _ Hne) as (_ & Fm). rewrite Forall_forall in Fm.
+    specialize (Fm k (in_map fst _ _ X)). cbn [fst] in Fm. rewrite <- eps_lrf_eq in Fm. lia.
+Qed.
+
+(* ---------- the invariant of recv_inputs ---------- *)
+Definition eps_window_ok (s : ep) : Prop := 0 <= u_max_prediction s <= EPS_MAX_WINDOW.
+
+Definition eps_ri_ok (s : ep) : Prop :=
+  NoDup (eps_keys (u_recv_inputs s)) /\ u_recv_inputs s <> [] /\
+  Forall (fun k => -1 <= k <= TS_I32_MAX) (eps_keys (u_recv_inputs s)).
+
+Lemma eps_ri_ok_ext : forall s s', u_recv_inputs s' = u_recv_inputs s -> eps_ri_ok s -> eps_ri_ok s'.
+Proof. intros s s' E H. unfold eps_ri_ok in *. rewrite E. exact H. Qed.
+
+Lemma eps_ri_ok_lrf : forall s, eps_ri_ok s ->
+  -1 <= last_recv_frame s <= TS_I32_MAX /\ In (last_recv_frame s) (eps_keys (u_recv_inputs s)) /\
+  (forall k, In k (eps_keys (u_recv_inputs s)) -> k <= last_recv_frame s).
+Proof.
+  intros s (_ & Hne & Hr). destruct (eps_lrf_is_max _ Hne) as (A & B). rewrite <- eps_lrf_eq in *.
+  rewrite Forall_forall in Hr, B. split; [exact (Hr _ A)|]. split; [exact A|exact B].
+Qed.
+
+(* the loop preserves it *)
+Lemma eps_accept_ri_ok : forall dbg start inputs s b s',
+  accept_inputs dbg start 0 inputs s = Ok (b, s') -> 0 <= start -> eps_ri_ok s -> eps_ri_ok s'.
+Proof.
+  intros dbg start inputs s b s' H Hs (Hn & Hne & Hr).
+  assert (Hmin : TS_I32_MIN <= start + 0) by (unfold TS_I32_MIN; lia).
+  destruct (eps_accept_spec _ _ _ _ _ _ _ H Hmin) as (_ & B & C & D & _).
+  destruct (eps_ri_ok_lrf s (conj Hn (conj Hne Hr))) as (L & _).
+  split; [auto|]. split.
+  - destruct (u_recv_inputs s) as [|[k v] r] eqn:Er; [congruence|].
+    specialize (C k (or_introl eq_refl)). intro N. rewrite N in C. destruct C.
+  - apply Forall_forall. intros k X. unfold eps_keys in X. apply in_map_iff in X.
+    destruct X as ([k0 v] & Ek & X). cbn in Ek. subst k0.
+    destruct (D _ _ X) as [Y|(Y1 & Y2 & _)]; [|lia].
+    rewrite Forall_forall in Hr. apply Hr. exact (in_map fst _ _ Y).
+Qed.
+
+(* the retain step of a completed on_input, with the arithmetic made exact by [eps_window_ok] *)
+Lemma eps_retain_arith : forall dbg mp lrf w lo,
+  0 <= mp <= EPS_MAX_WINDOW -> -1 <= lrf <= TS_I32_MAX ->
+  ts_i32_arith dbg (2 * ts_wrap_i32 mp) = Ok w -> ts_i32_arith dbg (lrf - w) = Ok lo ->
+  w = 2 * mp /\ lo = lrf - 2 * mp.
+Proof.
+  intros dbg mp lrf w lo Hm Hl H1 H2. unfold EPS_MAX_WINDOW in Hm.
+  rewrite (eps_wrap_small mp) in H1 by (unfold TS_I32_MIN, TS_I32_MAX; lia).
+  rewrite (eps_i32_exact dbg (2 * mp)) in H1 by (unfold TS_I32_MIN, TS_I32_MAX; lia).
+  assert (Ew : w = 2 * mp) by (injection H1; auto). subst w.
+  rewrite (eps_i32_exact dbg (lrf - 2 * mp)) in H2 by (unfold TS_I32_MIN, TS_I32_MAX in *; lia).
+  split; [reflexivity|]. injection H2; auto.
+Qed.
+
+(* a completed on_input (loop finished, ack queued, old entries pruned) *)
+Lemma eps_complete_exit_ri : forall dbg now sf inputs s3 s4 w lo ref,
+  eps_ri_ok s3 -> eps_window_ok s3 -> 0 <= sf ->
+  alookup (eps_decode_frame s3 sf) (u_recv_inputs s3) = Some ref ->
+  accept_inputs dbg sf 0 inputs s3 = Ok (true, s4) ->
+  ts_i32_arith dbg (2 * ts_wrap_i32 (u_max_prediction s4)) = Ok w ->
+  ts_i32_arith dbg (last_recv_frame s4 - w) = Ok lo ->
+  let s' := set_recv_inputs (aretain_ge (Z.min lo (sf - 1)) (u_recv_inputs s4)) (send_input_ack now s4) in
+  eps_ri_ok s' /\ last_recv_frame s' = last_recv_frame s4 /\ last_recv_frame s3 <= last_recv_frame s4 /\
+  (* the bound of this handler call *)
+  Z.of_nat (length (u_recv_inputs s')) <=
+    Z.max (2 * u_max_prediction s3) (last_recv_frame s' - sf + 1) + 1 /\
+  ((length (u_recv_inputs s') <= length (u_recv_inputs s3))%nat \/
+   last_recv_frame s' <= sf + Z.of_nat (length inputs) - 1) /\
+  (* what is kept *)
+  (forall k v, In (k, v) (u_recv_inputs s') -> In (k, v) (u_recv_inputs s4)) /\
+  (forall k v, In (k, v) (u_recv_inputs s3) -> Z.min (last_recv_frame s4 - 2 * u_max_prediction s3) (sf - 1) <= k ->
+               alookup k (u_recv_inputs s') = Some v).
+Proof.
+  intros dbg now sf inputs s3 s4 w lo ref Hok Hw Hs Hl Ha Ew Elo. cbv zeta.
+  assert (Hmin : TS_I32_MIN <= sf + 0) by (unfold TS_I32_MIN; lia).
+  pose proof (eps_accept_ri_ok _ _ _ _ _ _ Ha Hs Hok) as Hok4.
+  destruct (eps_accept_spec _ _ _ _ _ _ _ Ha Hmin) as (A & B & C & D & E & F & _).
+  eps_others_inj A. unfold eps_window_ok in Hw.
+  destruct (eps_ri_ok_lrf _ Hok) as (L3 & K3 & M3). destruct (eps_ri_ok_lrf _ Hok4) as (L4 & K4 & M4).
+  rewrite O20 in Ew. destruct (eps_retain_arith _ _ _ _ _ Hw L4 Ew Elo) as (-> & ->).
+  set (lo' := Z.min (last_recv_frame s4 - 2 * u_max_prediction s3) (sf - 1)).
+  assert (Hlo' : lo' <= last_recv_frame s4) by (subst lo'; lia).
+  destruct Hok4 as (N4 & Ne4 & R4).
+  rewrite eps_lrf_eq in Hlo'. destruct (eps_lrf_retain lo' _ Ne4 Hlo') as (Ne' & El').
+  set (ri' := aretain_ge lo' (u_recv_inputs s4)) in *.
+  assert (Hri : u_recv_inputs (set_recv_inputs ri' (send_input_ack now s4)) = ri') by reflexivity.
+  assert (Hlrf : last_recv_frame (set_recv_inputs ri' (send_input_ack now s4)) = last_recv_frame s4).
+  { rewrite !eps_lrf_eq, Hri. exact El'. }
+  assert (Hsub : forall k, In k (eps_keys ri') -> In k (eps_keys (u_recv_inputs s4)) /\ lo' <= k).
+  { intros k X. apply eps_keys_retain in X. exact X. }
+  assert (Hok' : eps_ri_ok (set_recv_inputs ri' (send_input_ack now s4))).
+  { unfold eps_ri_ok. rewrite Hri. split; [apply eps_nodup_filter_keys; exact N4|]. split; [exact Ne'|].
+    apply Forall_forall. intros k X. rewrite Forall_forall in R4. apply R4. apply Hsub. exact X. }
+  split; [exact Hok'|]. split; [exact Hlrf|]. split; [exact E|].
+  rewrite Hlrf, Hri.
+  assert (Hrange : forall k, In k (eps_keys ri') -> lo' <= k <= last_recv_frame s4).
+  { intros k X. destruct (Hsub k X) as (X1 & X2). split; [exact X2|apply M4; exact X1]. }
+  split.
+  { pose proof (eps_nodup_range_length (eps_keys ri') lo' (last_recv_frame s4)
+                  (proj1 Hok') Hrange) as P. rewrite eps_keys_length in P. subst lo'. unfold ibytes in *. lia. }
+  split.
+  { (* either nothing new survives, or last_recv_frame is a frame of this packet *)
+    destruct (Z_le_gt_dec (last_recv_frame s4) (last_recv_frame s3)) as [Hsame|Hnew].
+    - left. assert (P : (length (eps_keys ri') <= length (eps_keys (u_recv_inputs s3)))%nat).
+      { apply NoDup_incl_length; [exact (proj1 Hok')|].
+        intros k X. destruct (Hsub k X) as (X1 & _). unfold eps_keys in X1. apply in_map_iff in X1.
+        destruct X1 as ([k0 v] & Ek & X1). cbn in Ek. subst k0.
+        destruct (D _ _ X1) as [Y|(Y1 & _)]; [exact (in_map fst _ _ Y)|].
+        specialize (M4 k (in_map fst _ _ X1)). cbn [fst] in M4. lia. }
+      rewrite !eps_keys_length in P. unfold ibytes in *. exact P.
+    - right. unfold eps_keys in K4. apply in_map_iff in K4. destruct K4 as ([k0 v] & Ek & X1). cbn in Ek.
+      destruct (D _ _ X1) as [Y|(Y1 & _)]; [|lia].
+      specialize (M3 k0 (in_map fst _ _ Y)). cbn [fst] in M3. lia. }
+  split.
+  { intros k v X. unfold ri', aretain_ge in X. apply filter_In in X. tauto. }
+  intros k v X Hk. apply eps_alookup_nodup; [exact (proj1 Hok')|].
+  unfold ri', aretain_ge. apply filter_In. split; [eapply eps_accept_keeps; eauto|]. cbn [fst]. subst lo'. lia.
+Qed.
+
+(* ---------- what any exit of handle_message(Input) does to the other fields ---------- *)
+Lemma eps_pop_pending_length : forall ack po la po' la',
+  pop_pending ack po la = (po', la') -> (length po' <= length po)%nat.
+Proof.
+  induction po as [|x r IH]; intros la po' la' H; cbn [pop_pending] in H.
+  - inversion H. cbn. lia.
+  - destruct (fst x <=? ack); [apply IH in H; cbn [length]; lia|inversion H; lia].
+Qed.
+
+Lemma eps_input_exit_effect : forall dbg now st dr sf af bytes s s',
+  eps_input_exit dbg now st dr sf af bytes s s' ->
+  u_state s' = u_state s /\ (u_event_sent s = true -> u_event_sent s' = true) /\
+  u_num_players s' = u_num_players s /\ u_handles s' = u_handles s /\ u_max_prediction s' = u_max_prediction s /\
+  u_desync s' = u_desync s /\ u_magic s' = u_magic s /\ u_remote_magic s' = u_remote_magic s /\
+  u_pending_checksums s' = u_pending_checksums s /\
+  length (u_peer_status s') = length (u_peer_status s) /\
+  ((u_pending_output s', u_last_acked s') = (u_pending_output s, u_last_acked s) \/
+   (u_pending_output s', u_last_acked s') = pop_pending af (u_pending_output s) (u_last_acked s)) /\
+  (u_send_queue s' = u_send_queue s \/
+   exists f, u_send_queue s' = u_send_queue s ++ [mkMsg (u_magic s) (InputAck f)]).
+Proof.
+  intros dbg now st dr sf af bytes s s' H.
+  pose proof (eps_touch_fields now s) as T. unfold eps_only_touched in T.
+  assert (Hhdr : forall s2, eps_header st dr af (eps_touch now s) = Ok s2 ->
+    u_state s2 = u_state s /\ (u_event_sent s = true -> u_event_sent s2 = true) /\
+    u_num_players s2 = u_num_players s /\ u_handles s2 = u_handles s /\ u_max_prediction s2 = u_max_prediction s /\
+    u_desync s2 = u_desync s /\ u_magic s2 = u_magic s /\ u_remote_magic s2 = u_remote_magic s /\
+    u_pending_checksums s2 = u_pending_checksums s /\
+    length (u_peer_status s2) = length (u_peer_status s) /\
+    (u_pending_output s2, u_last_acked s2) = pop_pending af (u_pending_output s) (u_last_acked s) /\
+    u_send_queue s2 = u_send_queue s).
+  { intros s2 Eh. destruct (eps_header_touch _ _ _ _ _ _ Eh) as (Ho & _). unfold eps_header_only in Ho.
+    destruct Ho as (H1&H2&H3&H4&H5&H6&H7&H8&H9&H10&H11&H12&H13&H14&H15&H16&H17&H18&H19&H20&H21&H22&H23&H24&H25&H26&H27&H28&H29&H30).
+    repeat (split; [first [assumption | congruence | (intro X; rewrite H28, X; reflexivity)]|]).
+    split; [|split; assumption].
+    destruct dr; [congruence|]. eapply eps_merge_status_length; eauto. }
+  destruct H.
+  - repeat (split; [first [reflexivity | (intro X; exact X)]|]). split; left; reflexivity.
+  - destruct T as (T1&T2&T3&T4&T5&T6&T7&T8&T9&T10&T11&T12&T13&T14&T15&T16&T17&T18&T19&T20&T21&T22&T23&T24&T25&T26&T27&T28&T29&T30&T31&T32).
+    repeat (split; [first [assumption | congruence]|]). split; left; congruence.
+  - destruct (Hhdr _ H) as (A1&A2&A3&A4&A5&A6&A7&A8&A9&A10&A11&A12).
+    repeat (split; [first [assumption | congruence]|]). split; [right; assumption|left; assumption].
+  - destruct (Hhdr _ H) as (A1&A2&A3&A4&A5&A6&A7&A8&A9&A10&A11&A12). fsimpl.
+    repeat (split; [first [assumption | congruence]|]). split; [right; assumption|right].
+    rewrite A12, A7. eexists. reflexivity.
+  - destruct (Hhdr _ H) as (A1&A2&A3&A4&A5&A6&A7&A8&A9&A10&A11&A12). fsimpl.
+    repeat (split; [first [assumption | congruence]|]). split; [right; assumption|left; assumption].
+  - destruct (Hhdr _ H) as (A1&A2&A3&A4&A5&A6&A7&A8&A9&A10&A11&A12).
+    assert (Hmin : TS_I32_MIN <= sf + 0) by (unfold TS_I32_MIN; lia).
+    destruct (eps_accept_spec _ _ _ _ _ _ _ H3 Hmin) as (A & _). eps_others_inj A. fsimpl.
+    repeat (split; [first [congruence | (intro X; rewrite O10; auto)]|]).
+    split; [right; congruence|left; congruence].
+  - destruct (Hhdr _ H) as (A1&A2&A3&A4&A5&A6&A7&A8&A9&A10&A11&A12).
+    assert (Hmin : TS_I32_MIN <= sf + 0) by (unfold TS_I32_MIN; lia).
+    destruct (eps_accept_spec _ _ _ _ _ _ _ H3 Hmin) as (A & _). eps_others_inj A. fsimpl.
+    repeat (split; [first [congruence | (intro X; rewrite O10; auto)]|]).
+    split; [right; congruence|right]. rewrite O3, O15, A12, A7. eexists. reflexivity.
 Qed.
